@@ -530,6 +530,63 @@ func Generate(r *rng.R, mode int) *Case {
 		}
 	}
 
+	// twins: routes with the SAME name in DIFFERENT namespaces (2, sometimes 3; HTTPRoutes and GRPCRoutes mixed), every one
+	// with weighted rules (>= 2 backends) at the same rule indexes. Each needs its own BackendGroup / split_clients
+	// variable $group_<ns>__<name>_rule<i>. (Same name AND namespace across kinds is the known finding
+	// backend-group-key-shared-by-route-kinds: not produced here.)
+	if len(nss) >= 2 && r.Chance(1, 4) {
+		name := rng.Pick(r, []string{"twin", "shop", "api-v1"})
+		members := 2
+		if len(nss) >= 3 && r.Chance(1, 2) {
+			members = 3
+		}
+		nrules := r.Range(1, 2)
+		made := 0
+		for mi := 0; mi < members; mi++ {
+			ns := nss[mi]
+			grpc := r.Chance(1, 3)
+			key := map[bool]string{false: "H/", true: "G/"}[grpc] + ns + "/" + name
+			if used["H/"+ns+"/"+name] || used["G/"+ns+"/"+name] {
+				continue
+			}
+			used[key] = true
+			weighted := func(j int) []p.Backend {
+				var bs []p.Backend
+				for k, w := range [][]int32{{1, 1}, {2, 1, 1}, {83, 42}, {1, 0, 3}}[(mi+j)%4] {
+					s := svcPool[k%len(svcPool)]
+					ensureSvc(ns, s)
+					bs = append(bs, p.Backend{Ref: s, Port: 80, Weight: w})
+				}
+				return bs
+			}
+			host := []string{fmt.Sprintf("twin%d.example.com", mi)}
+			if grpc {
+				var rules []gatewayv1.GRPCRouteRule
+				for j := 0; j < nrules; j++ {
+					rule := gatewayv1.GRPCRouteRule{Matches: []gatewayv1.GRPCRouteMatch{{Method: &gatewayv1.GRPCMethodMatch{
+						Type: ptr(gatewayv1.GRPCMethodMatchExact), Service: ptr("twin.Svc"), Method: ptr(fmt.Sprintf("M%d", j))}}}}
+					for _, b := range weighted(j) {
+						rule.BackendRefs = append(rule.BackendRefs, gatewayv1.GRPCBackendRef{BackendRef: p.BackendRef(b)})
+					}
+					rules = append(rules, rule)
+				}
+				c.Objs = append(c.Objs, p.GRPCRoute(ns, name, next(), parents, host, rules...))
+				routes = append(routes, routeRef{"GRPCRoute", ns, name})
+			} else {
+				var rules []gatewayv1.HTTPRouteRule
+				for j := 0; j < nrules; j++ {
+					rules = append(rules, p.HTTPRule([]gatewayv1.HTTPRouteMatch{p.PathMatch("PathPrefix", fmt.Sprintf("/twin%d", j))}, weighted(j)...))
+				}
+				c.Objs = append(c.Objs, p.HTTPRoute(ns, name, next(), parents, host, rules...))
+				routes = append(routes, routeRef{"HTTPRoute", ns, name})
+			}
+			made++
+		}
+		if made >= 2 {
+			c.tag(fmt.Sprintf("same-route-name-in-%d-namespaces-weighted", made))
+		}
+	}
+
 	// policies
 	if len(routes) > 0 && r.Chance(2, 3) {
 		t := rng.Pick(r, routes)
